@@ -183,13 +183,21 @@ func cmdCheck(args []string) {
 			}
 		}
 	}
+	nWitness := 0
+	if os.Getenv("VERIF_NO_WITNESS") == "" {
+		var werrs []string
+		nWitness, werrs = validateWitnesses(l, id, todo, results)
+		for _, w := range werrs {
+			inconcl = append(inconcl, "translator self-test: "+w)
+		}
+	}
 	if exit == 0 && len(inconcl) > 0 {
 		exit = 2
 	}
 	for _, m := range inconcl {
 		fmt.Println("INCONCLUSIVE:", m)
 	}
-	writeEvidence(id, tier, seed, spec, todo, results, time.Since(start).Seconds(), nViol, inconcl)
+	writeEvidence(id, tier, seed, spec, todo, results, time.Since(start).Seconds(), nViol+nWitness, inconcl)
 	if exit == 0 {
 		fmt.Printf("OK property=%s tier=%s harnesses=%d wall=%.1fs\n", id, tier, len(todo), time.Since(start).Seconds())
 	}
@@ -422,4 +430,80 @@ func trimModel(m map[string]uint64) map[string]uint64 {
 		out[k] = m[k]
 	}
 	return out
+}
+
+// validateWitnesses replays cover-witness models of sequential harnesses natively against
+// the compiled code: the native run must reach the same cover label without any failed
+// assertion or panic. This validates the SSA->SMT encoding against the real build.
+func validateWitnesses(l *Loaded, id string, todo []HarnessSpec, results []*HarnessResult) (int, []string) {
+	type wcase struct {
+		fn, cover, model string
+	}
+	byPkg := map[string][]wcase{}
+	dir := filepath.Join(verifDir(), "replays", id, "witness")
+	os.MkdirAll(dir, 0o755)
+	for i, r := range results {
+		if r == nil || r.MaxThreads > 1 || len(r.Violations) > 0 {
+			continue
+		}
+		var labels []string
+		for c := range r.Covers {
+			labels = append(labels, c)
+		}
+		sort.Strings(labels)
+		n := 0
+		for _, c := range labels {
+			h := r.Covers[c]
+			if h.Model == nil || n >= 3 {
+				continue
+			}
+			mf := map[string]interface{}{"model": h.Model, "params": todo[i].Params}
+			mb, _ := json.Marshal(mf)
+			mp := filepath.Join(dir, fmt.Sprintf("%s-%d.json", r.Harness, n))
+			os.WriteFile(mp, mb, 0o644)
+			byPkg[todo[i].Pkg] = append(byPkg[todo[i].Pkg], wcase{r.Harness, c, mp})
+			n++
+		}
+	}
+	total := 0
+	var errs []string
+	for pkg, cases := range byPkg {
+		pkgName := l.pkgs[modPath+"/"+pkg].Pkg.Name()
+		var sb strings.Builder
+		fmt.Fprintf(&sb, "package %s\n\nimport (\n\t\"fmt\"\n\t\"testing\"\n\n\tvrt \"storj.io/drpc/internal/verifrt\"\n)\n\n", pkgName)
+		sb.WriteString("func TestVerifWitness(t *testing.T) {\n\tcases := []struct {\n\t\tname string\n\t\tfn func()\n\t\tmodel, cover string\n\t}{\n")
+		for _, c := range cases {
+			fmt.Fprintf(&sb, "\t\t{%q, %s, %q, %q},\n", c.fn, c.fn, c.model, c.cover)
+		}
+		sb.WriteString("\t}\n\tfor _, c := range cases {\n\t\tvrt.UseModel(c.model)\n\t\tfailed, panicked, av := vrt.RunReplayTimeout(c.fn, 30)\n\t\tok := len(failed) == 0 && panicked == nil && !av && vrt.HasCover(c.cover)\n\t\tfmt.Printf(\"VRT-WITNESS %s cover=%q ok=%v failed=%q panicked=%v assume_violated=%v\\n\", c.name, c.cover, ok, failed, panicked, av)\n\t}\n}\n")
+		testPath := filepath.Join(dir, "witness_"+strings.ReplaceAll(pkg, "/", "_")+"_test.go")
+		os.WriteFile(testPath, []byte(sb.String()), 0o644)
+		repl := map[string]string{}
+		for virt, real := range l.overlayFiles {
+			repl[virt] = real
+		}
+		repl[filepath.Join(repoDir(), pkg, "zz_verif_witness_test.go")] = testPath
+		ob, _ := json.Marshal(map[string]interface{}{"Replace": repl})
+		ovPath := filepath.Join(dir, "overlay_"+strings.ReplaceAll(pkg, "/", "_")+".json")
+		os.WriteFile(ovPath, ob, 0o644)
+		cmdline := fmt.Sprintf("cd %s && GOFLAGS=-mod=mod GOPROXY=off GOSUMDB=off GOTOOLCHAIN=local go test -v -vet=off -count=1 -timeout 300s -overlay %s -run '^TestVerifWitness$' ./%s/", repoDir(), ovPath, pkg)
+		out, _ := exec.Command("sh", "-c", cmdline).CombinedOutput()
+		os.WriteFile(filepath.Join(dir, "output_"+strings.ReplaceAll(pkg, "/", "_")+".txt"), out, 0o644)
+		seen := 0
+		for _, line := range strings.Split(string(out), "\n") {
+			if !strings.HasPrefix(line, "VRT-WITNESS ") {
+				continue
+			}
+			seen++
+			if strings.Contains(line, " ok=true ") {
+				total++
+			} else {
+				errs = append(errs, "native run disagrees with the engine: "+line)
+			}
+		}
+		if seen != len(cases) {
+			errs = append(errs, fmt.Sprintf("witness replay for %s ran %d of %d cases: %s", pkg, seen, len(cases), firstLine(string(out))))
+		}
+	}
+	return total, errs
 }
